@@ -41,14 +41,17 @@ ASSUMPTIONS = [
     "hence cond_inf(I - dG/dv) <= (1+q)/(1-q) <= 1.86",
     "over-relaxation factors stay in [0.6, 1.3] (gemseo's two-step relaxation converges for q(|w|+|1-w|) < 1)",
     "max_mda_iter = 200 (10 for some MDAGSNewton cases so that the Newton stage runs); the unchanged tree needs far fewer",
-    "residual bound per scaling: NO_SCALING -> ||R||_inf <= tol exactly; the scalings relative to the initial residual "
-    "or to the number of couplings -> tol * sqrt(n) * max(1, sqrt(n)(1+q)||v0-v*||_inf) (upper bound of the documented "
-    "criterion, the initial residual itself is not re-derived); MDAQuasiNewton (SciPy's own criteria, relative to |F0| "
-    "or |x|) -> 10 * tol * sqrt(n) * max(1, (1+q)||v0-v*||_inf, ||v*||_inf)",
-    "a rounding allowance of 1e-12 (1 + ||v*||_inf) is added to every bound",
+    "residual bound rho per scaling: NO_SCALING -> ||R||_inf <= tol; the other scalings -> the documented criterion with "
+    "every initial residual component bounded by (1+q)||v0-v*||_inf and replaced by 1 when it may be exactly 0 (upper "
+    "bound, the initial residual itself is not re-derived); MDAQuasiNewton (SciPy's own criteria, relative to |F0| or "
+    "|x|) -> 100 * tol * sqrt(n) * max(1, (1+q)||v0-v*||_inf, ||v*||_inf)",
+    "fixed-point bound: defect <= 2 q rho + 1e-12 (1 + ||v*||_inf) (rounding allowance); exact-solution bound: that / (1-q)",
     "MDANewtonRaphson / MDAGSNewton / sequences containing them are given all-strongly-coupled systems only (documented "
     "ValueError otherwise, which is checked) - other systems reach them through MDAChain",
-    "MDAQuasiNewton is run with the SciPy methods that converge on this domain within the budget (see QN_METHODS); "
+    "MDAQuasiNewton: a run in which the SciPy method exhausts its evaluation budget, or (hybr/lm without gradient) is stuck "
+    "on a tiny non-zero coupling component because of MINPACK's relative finite-difference step, is inconclusive "
+    "(counted in classes 'inconclusive:*'), not a violation",
+    "Newton linear solvers are DEFAULT (direct), GMRES and LGMRES: BiCGStab-type breakdowns are a property of those methods",
     "parallel execution (n_processes > 1) belongs to C13",
 ]
 
@@ -62,7 +65,7 @@ SCALINGS = [
 SOLVERS = ["MDAJacobi", "MDAGaussSeidel", "MDANewtonRaphson", "MDAQuasiNewton"]
 NEEDS_ALL_STRONG = {"MDANewtonRaphson", "MDAGSNewton"}
 QN_METHODS = ["hybr", "lm", "broyden1", "broyden2", "anderson", "krylov", "df-sane"]
-NEWTON_LINEAR_SOLVERS = ["DEFAULT", "DEFAULT", "GMRES", "LGMRES", "BICGSTAB"]
+NEWTON_LINEAR_SOLVERS = ["DEFAULT", "DEFAULT", "GMRES", "LGMRES"]
 BUDGET = 200
 
 
@@ -98,7 +101,7 @@ def configurations(draw):
     if kind == "solver":
         cfg["solver"] = draw(_solver_cfg())
     elif kind == "chain":
-        cfg["inner"] = draw(st.one_of(_solver_cfg(), st.just({"cls": "MDAGSNewton"})))
+        cfg["inner"] = draw(st.one_of(_solver_cfg(), _solver_cfg(), _solver_cfg(), st.just({"cls": "MDAGSNewton"})))
         if cfg["inner"]["cls"] == "MDAGSNewton":
             cfg["budget"] = draw(st.sampled_from([10, BUDGET]))
     elif kind == "gsnewton":
@@ -118,6 +121,7 @@ def cases(draw):
     delta = {v["name"]: [draw(st.sampled_from([-0.5, 0.0, 0.25, 1.0])) for _ in range(v["size"])] for v in system["x"]}
     configs = draw(st.lists(configurations(), min_size=1, max_size=3))
     return {"system": system, "values": values, "delta": delta, "configs": configs,
+            "start": draw(st.sampled_from(["grid", "grid", "near"])),
             "grammar": draw(st.sampled_from(["SimpleGrammar", "SimpleGrammar", "SimpleGrammar", "JSONGrammar"]))}
 
 
@@ -288,12 +292,28 @@ def execute_and_check(ctx, mda, model, cfg, x, sol, e0, label):
     try:
         return check_returned(ctx, model, cfg, x, out, sol, e0, label)
     except Violation:
+        if quasi_newton_budget_exhausted(mda, cfg):
+            ctx.cls("inconclusive:quasi_newton_budget_exhausted")
+            ctx.note("MDAQuasiNewton runs in which the SciPy method used its whole budget without converging are "
+                     "counted as inconclusive (non-convergence of the third-party method, logged by gemseo)")
+            return None
         if is_fd_step_degenerate(cfg, model, out, sol):
             ctx.cls("inconclusive:scipy_fd_step_degenerate")
             ctx.note("MDAQuasiNewton hybr/lm without gradient: runs stuck on a tiny non-zero coupling component "
                      "(MINPACK relative finite-difference step) are counted as inconclusive, not as violations")
             return None
         raise
+
+
+def is_subresidual_scaling_without_resolved_variables(cfg: dict, info: dict) -> bool:
+    """Ledger class: INITIAL_SUBRESIDUAL_NORM / INITIAL_RESIDUAL_COMPONENT on a top-level Gauss-Seidel MDA of a system without any cycle."""
+    return (cfg["scaling"] in ("initial_subresidual_norm", "initial_residual_component") and cfg["kind"] in ("solver", "sequential")
+            and any(s["cls"] == "MDAGaussSeidel" for s in solver_parts(cfg)) and info["n_scc_ge2"] == 0 and info["n_self_coupled"] == 0)
+
+
+def quasi_newton_budget_exhausted(mda, cfg: dict) -> bool:
+    """A SciPy root method used all its evaluations / iterations (SciPy reports a failure that gemseo only logs)."""
+    return any(type(sub).__name__ == "MDAQuasiNewton" and int(getattr(sub, "current_iter", 0)) >= cfg["budget"] for sub in _solver_mdas(mda))
 
 
 NONLIN_SOLVE_METHODS = {"broyden1", "broyden2", "anderson", "krylov"}
@@ -328,14 +348,25 @@ def iterations_of(mda) -> int:
 
 # --------------------------------------------------------------------------- the oracle
 def residual_bound(cfg: dict, model: CoupledSystem, e0: float, vmax: float) -> float:
-    """Upper bound of the max-norm of the last coupling residual allowed by the stop criterion."""
+    """Upper bound rho of the max-norm of the last coupling residual allowed by the documented stop criterion.
+
+    ``e0`` bounds the max-norm distance between any point at which an initial residual is taken
+    and the solution, so every initial residual component is at most (1+q) e0 in magnitude (the
+    sweep maps are q-contractions); an initial residual that is exactly 0 is replaced by 1 by gemseo.
+    """
     tol, n = cfg["tol"], max(model.n_v, 1)
-    q = model.q
+    r0 = (1.0 + model.q) * e0
+    smax = max(model.sizes[name] for name in model.out_names)
     if uses_quasi_newton(cfg):
-        return 10.0 * tol * math.sqrt(n) * max(1.0, (1 + q) * e0, vmax)
-    if cfg["scaling"] == "no_scaling":
-        return tol
-    return tol * math.sqrt(n) * max(1.0, math.sqrt(n) * (1 + q) * e0)
+        return 100.0 * tol * math.sqrt(n) * max(1.0, r0, vmax)
+    return {
+        "no_scaling": tol,  # ||R||_2 <= tol
+        "n_coupling_variables": tol * math.sqrt(n),  # ||R||_2 <= tol sqrt(n_resolved)
+        "initial_residual_norm": tol * max(1.0, math.sqrt(n) * r0),  # ||R||_2 <= tol ||R0||_2
+        "initial_subresidual_norm": tol * max(1.0, math.sqrt(smax) * r0),  # per variable
+        "initial_residual_component": tol * max(1.0, r0),  # per component
+        "scaled_initial_residual_component": tol * math.sqrt(n) * max(1.0, r0),  # ||R / R0||_2 <= tol sqrt(n)
+    }[cfg["scaling"]]
 
 
 def check_returned(ctx, model, cfg, x, out, sol, e0, label):
@@ -352,8 +383,10 @@ def check_returned(ctx, model, cfg, x, out, sol, e0, label):
                   f"{label}: output {name} is not finite: {arr!r}", cfg=cfg)
         data[name] = arr.astype(float)
     # (1) fixed point: every discipline re-executed on the returned data reproduces it.
-    # a discipline output was computed from inputs that moved by at most rho since -> changes by at most q*rho
-    tau = 2.0 * rho + rounding
+    # a discipline output was computed from coupling inputs that moved by at most rho since, and every
+    # discipline is q-Lipschitz in the max norm w.r.t. its coupling inputs: the defect is at most q * rho
+    # (a factor 2 is granted; MDAQuasiNewton has its own, looser rho)
+    tau = (2.0 * rho if uses_quasi_newton(cfg) else 2.0 * model.q * rho) + rounding
     defect, where = model.defect(data)
     ctx.check(defect <= tau, "fixed_point",
               f"{label}: re-executing {where} on the returned data changes it by {defect:.3e} > {tau:.3e} "
@@ -379,6 +412,14 @@ def _case_mda(p, ctx):
     x2 = {n: values[n] + np.array(p["delta"][n], dtype=float) for n in model.x_names}
     sol1, sol2 = model.solve(x1), model.solve(x2)
     couplings = model.couplings()
+    defaults = dict(p["values"])
+    if p.get("start") == "near":
+        # start values = the exact solution rounded to multiples of 1/64: small initial residuals, which
+        # is where the criteria relative to the initial residual differ most from the absolute one
+        for n in model.out_names:
+            values[n] = np.round(64.0 * sol1[n]) / 64.0 + 0.0
+            defaults[n] = values[n].tolist()
+        ctx.cls("start_near_solution")
     start = {n: values[n] for n in model.out_names}
     e0_1 = max((float(np.max(np.abs(start[n] - sol1[n]))) for n in couplings), default=0.0)
     e0_2 = max((float(np.max(np.abs(start[n] - sol2[n]))) for n in couplings), default=0.0)
@@ -395,22 +436,34 @@ def _case_mda(p, ctx):
         tag = cfg["kind"] + ":" + "+".join(s["cls"] for s in parts)
         n_disc = info["n_disc"]
         order = [i for i in cfg["perm"] if i < n_disc]
-        discs_all = build_disciplines(model, p["values"], p["grammar"], reject_non_finite=True)
+        discs_all = build_disciplines(model, defaults, p["grammar"], reject_non_finite=True)
         discs = [discs_all[i] for i in order]
         if needs_all_strong(cfg) and not info["all_strong"]:
-            # documented rejection by MDANewtonRaphson; the same settings are then used inside an MDAChain
+            # documented rejection by MDANewtonRaphson ...
             try:
                 build_mda(cfg, discs)
             except ValueError:
                 ctx.cls("rejected_weakly_coupled_newton")
             else:
                 ctx.fail("documented_rejection", f"{tag}: a system with weakly coupled disciplines was accepted", cfg=cfg)
-            continue
+            # ... which recommends MDAChain: the same settings are then used for the inner MDAs
+            if cfg["kind"] == "solver":
+                cfg = {**cfg, "kind": "chain", "inner": cfg["solver"]}
+            elif cfg["kind"] == "gsnewton":
+                cfg = {**cfg, "kind": "chain", "inner": {"cls": "MDAGSNewton"}}
+            else:
+                continue
+            parts = solver_parts(cfg)
+            tag = cfg["kind"] + ":" + "+".join(s["cls"] for s in parts)
+            discs_all = build_disciplines(model, defaults, p["grammar"], reject_non_finite=True)
+            discs = [discs_all[i] for i in order]
         if is_aitken_with_relaxation(cfg) and ctx.known("aitken_with_relaxation"):
             continue
         if is_sequential_ending_with_silent_quasi_newton(cfg) and ctx.known("sequential_ending_with_quasi_newton_without_residual_output"):
             continue
         if is_quasi_newton_without_strong_couplings(cfg, info) and ctx.known("quasi_newton_without_strong_couplings"):
+            continue
+        if is_subresidual_scaling_without_resolved_variables(cfg, info) and ctx.known("subresidual_scaling_without_resolved_variables"):
             continue
         if is_quasi_newton_zero_solution(cfg, model, [sol1, sol2] if cfg["twice"] else [sol1]) and ctx.known("quasi_newton_zero_solution"):
             continue
@@ -427,7 +480,8 @@ def _case_mda(p, ctx):
             continue
         data, bound, ratio = res
         ctx.extra["max_iterations"] = max(ctx.extra.get("max_iterations", 0), n_it)
-        ctx.extra["max_defect_over_bound"] = max(ctx.extra.get("max_defect_over_bound", 0.0), round(ratio, 4))
+        key = "max_defect_over_bound_quasi_newton" if uses_quasi_newton(cfg) else "max_defect_over_bound_" + cfg["scaling"]
+        ctx.extra[key] = max(ctx.extra.get(key, 0.0), round(ratio, 4))
         if n_it >= cfg["budget"]:
             ctx.cls("budget_reached")
         results.append((tag, data, bound))
